@@ -9,6 +9,7 @@ code -> spec : random larger arrays; bounds / total_bounds judged by Trace_Measu
 from __future__ import annotations
 
 import math
+import os
 
 import numpy as np
 
@@ -60,6 +61,47 @@ def check_array(chk, kind, name, darr, exp_rows, subtype, aff, src_desc, full):
             stb = [float(v) for v in darr.sindex.total_bounds]
             if not M.rows_equal(stb, want_tb):
                 fail(chk, kind, name, subtype, aff, src_desc, "sindex.total_bounds", stb, want_tb, dict(ctx, site="sindex.total_bounds"))
+
+
+def check_parquet_provenance(chk, kind, arr, exp_rows, subtype, aff, nparts):
+    """Dask frames re-read from parquet: one dataset with recorded partition bounds (DaskGeoDataFrame.to_parquet) and one without
+    (pandas-level to_parquet), alone and combined in one read_parquet_dask call - extents are those of the rows held"""
+    import shutil
+    import tempfile
+    import dask.dataframe as dd
+    import spatialpandas as sp
+    from spatialpandas.io import read_parquet_dask, to_parquet
+    n = len(arr)
+    if n < 4:
+        return
+    h = n // 2
+    df = sp.GeoDataFrame({"id": np.arange(n), "geometry": arr})
+    tmp = tempfile.mkdtemp(prefix="c13-", dir=os.environ.get("TMPDIR") or "/var/tmp")
+    try:
+        pa_, pb_ = os.path.join(tmp, "a.parq"), os.path.join(tmp, "b.parq")
+        dd.from_pandas(df.iloc[:h], npartitions=min(nparts, h)).to_parquet(pa_)
+        to_parquet(df.iloc[h:], pb_)
+        for label, paths, sel in (("with bounds metadata", pa_, list(range(h))), ("without metadata", pb_, list(range(h, n))),
+                                  ("list [with, without]", [pa_, pb_], list(range(n))), ("list [without, with]", [pb_, pa_], list(range(h, n)) + list(range(h)))):
+            f = read_parquet_dask(paths)
+            rows = [exp_rows[i] for i in sel]
+            want = M.total_from_rows(rows)
+            tb = [float(v) for v in f.geometry.total_bounds]
+            chk.count(len(rows))
+            if not M.rows_equal(tb, want):
+                fail(chk, kind, f"read_parquet_dask({label})", subtype, aff, "", "DaskGeoSeries.total_bounds of a frame re-read from parquet", tb, want,
+                     dict(site="DaskGeoSeries.total_bounds", derivation="parquet-" + label.split()[0]))
+                continue
+            got = f.geometry.bounds.compute()
+            if len(got) != len(rows) or not all(M.rows_equal(r, w) for r, w in zip(got.values, rows)):
+                fail(chk, kind, f"read_parquet_dask({label})", subtype, aff, "", "DaskGeoSeries.bounds of a frame re-read from parquet", got.values.tolist(), rows,
+                     dict(site="DaskGeoSeries.bounds", derivation="parquet"))
+            pbt = f.geometry.partition_bounds
+            if len(pbt) != f.npartitions:
+                fail(chk, kind, f"read_parquet_dask({label})", subtype, aff, "", "number of partition_bounds rows", len(pbt), f.npartitions,
+                     dict(site="DaskGeoSeries.partition_bounds", derivation="parquet"))
+    finally:
+        shutil.rmtree(tmp, ignore_errors=True)
 
 
 def check_dask(chk, kind, arr, exp_rows, subtype, aff, nparts):
@@ -138,6 +180,8 @@ def replay(chk: Check, cases, tier):
                 check_array(chk, kind, name, darr, exp_rows, subtype, aff, desc, full=(aff is geom.IDENT or tier == "thorough"))
             if aff is geom.IDENT and subtype == "float64" and nb % 4 == 0:
                 check_dask(chk, kind, arr, rows, subtype, aff, nparts=1 + nb % 3)
+                if nb % 3 == 0 and aff is geom.IDENT:
+                    check_parquet_provenance(chk, kind, arr, rows, subtype, aff, nparts=1 + nb % 2)
         if nb == 1:
             chk.sample({"kind": kind, "element": elems[1], "expected_bounds": exps[1]["bounds"] if exps[1] else None})
     # zero rows
